@@ -67,6 +67,10 @@ func NewScanner(proto string, opts ...ScannerOption) *Scanner {
 	ec := &elasticClient{
 		client: &http.Client{
 			Transport: tr,
+			// the probed endpoint itself has to answer, never follow it to another host
+			CheckRedirect: func(*http.Request, []*http.Request) error {
+				return http.ErrUseLastResponse
+			},
 		},
 		proto:       proto,
 		dataTimeout: defaultDataTimeout,
